@@ -109,6 +109,10 @@ type State struct {
 	// a region allocated later is different from each of them.
 	regions   []*Term
 	regionSet map[string]bool
+	// abstracted: calls on this path whose effect was abstracted without a written contract
+	// (auto-abstracted value-only externals). A failed obligation on such a path is not a
+	// refutation by itself: it is trusted only if it replays on the real code.
+	abstracted []string
 }
 
 func (s *State) clone() *State {
@@ -125,6 +129,7 @@ func (s *State) clone() *State {
 		locks:     append([]*Term(nil), s.locks...),
 		regions:   append([]*Term(nil), s.regions...),
 		regionSet: make(map[string]bool, len(s.regionSet)),
+		abstracted: append([]string(nil), s.abstracted...),
 	}
 	for k := range s.regionSet {
 		n.regionSet[k] = true
